@@ -10,8 +10,10 @@ NOT_APPLICABLE = {
 }
 
 PARSE = M + "/parse"
+CORE = [M + "/ptrify", M + "/common", "strings", "unicode/utf8", "strconv", "go/token"]
 
 CHECKS = {
+    "SMOKE": {"runs": [{"entry": M + ".HarnessL1Smoke", "pkgs": CORE, "must_reach": ["smoke-end"]}]},
     "C15": {
         "claim": {
             "text": "bounded model checking of the real parse package: for every 64-bit literal value, in every Go literal style and padding, the integral parsers accept it iff it is in the target type's range and then return exactly that value (solver-quantified over the value; strconv.ParseInt/ParseUint modelled by their documented contract with base and bit size checked)",
